@@ -189,7 +189,7 @@ def gen_noise(rng, n):
 
 
 def gen_radial(rng, dmax):
-  d = rng.randint(1, dmax)
+  d = rng.randint(1, dmax) if rng.random() < 0.8 else rng.choice([11, 12, 13, 16, 20, 33])   # also beyond a dozen dimensions
   mode = rng.choice(["grid", "unit", "scaled", "scaled", "offset"])
   h = gen_hyper(rng, d, mode)
   n = rng.choice([1, 2, 3, 4, 5, 6, 8, 10])
@@ -211,7 +211,7 @@ def gen_radial(rng, dmax):
 
 
 def gen_multitask(rng, dmax):
-  d = rng.randint(1, dmax)
+  d = rng.randint(1, dmax) if rng.random() < 0.85 else rng.choice([12, 13, 17])
   mode = rng.choice(["grid", "unit", "scaled", "offset"])
   h = gen_hyper(rng, d, mode)
   lt = 10 ** rng.uniform(-2, 2)
